@@ -22,7 +22,7 @@ ASSUMPTIONS = ["a bytecode boundary inside `task.completed += advance` is a lega
                "the reference model mirrors the statement: completed = last explicit value + advances since (same "
                "float addition order), percentage = clamp(completed/total*100)",
                "on an early break out of track() the element being processed may or may not have been counted"]
-REQUIRED = ["mon.track_schedules", "mon.completed", "mon.percentage", "mon.finished", "mon.finish_time_fixed", "mon.speed", "mon.track",
+REQUIRED = ["mon.concurrent_estimates", "mon.track_schedules", "mon.completed", "mon.percentage", "mon.finished", "mon.finish_time_fixed", "mon.speed", "mon.track",
             "mon.schedules", "mon.conservation", "mon.lock_order_replay", "mon.switches_inside_mutators"]
 MIN_NONTRIVIAL = {"quick": 1500, "thorough": 80000}
 
@@ -422,6 +422,15 @@ def apply_conc_op(p, op, results=None):
         p.update(op[1], total=op[2])
 
 
+class TickingClock(Clock):
+    """A monotone clock that moves on with every reading (what time.monotonic does): two threads that read it
+    one after the other get different, ordered values."""
+
+    def __call__(self):
+        self.t += 0.5
+        return self.t
+
+
 def state_of(p):
     return {int(t.id): {"completed": t.completed, "total": t.total, "finished": t.finished,
                         "finished_time": t.finished_time, "samples": len(t._progress)} for t in p._tasks.values()}
@@ -472,7 +481,8 @@ def execute(ctx, prog, nthreads, ntasks, strategy, strat_kind, sseed, plan_of=No
     from rv.sched import coop
     with_sets = any(op[0] == "set" for ops in prog for op in ops)
     sched = S.Scheduler(strategy, max_steps=400000)
-    clock = Clock()
+    ticking = (sseed + len(prog)) % 2 == 0 and not with_sets
+    clock = TickingClock() if ticking else Clock()
     p = make_progress(clock)
     lock = coop.CoopRLock(sched, "progress._lock")
     p._lock = lock
@@ -508,6 +518,17 @@ def execute(ctx, prog, nthreads, ntasks, strategy, strat_kind, sseed, plan_of=No
         return
     final = state_of(p)
     wit["final"] = final
+    wit["clock"] = "advances with every reading" if ticking else "frozen"
+    # (iv) estimates: all advances are non-negative and the clock is monotone, so no speed estimate and no
+    # time-remaining estimate of a running task may be negative, and a task's samples are in time order
+    ctx.count("mon.concurrent_estimates")
+    for t in p._tasks.values():
+        stamps_ = [smp.timestamp for smp in t._progress]
+        sp, rem = t.speed, t.time_remaining
+        if (sp is not None and sp < 0) or (rem is not None and rem < 0) or stamps_ != sorted(stamps_):
+            ctx.violation("negative-estimate-or-samples-out-of-time-order-under-concurrency",
+                          dict(wit, task=int(t.id), speed=sp, time_remaining=rem, sample_times=stamps_[:12]))
+            return
     # (i)/(ii) conservation by bitmask
     ctx.count("mon.conservation")
     shared = 0
@@ -547,7 +568,9 @@ def execute(ctx, prog, nthreads, ntasks, strategy, strat_kind, sseed, plan_of=No
     order = [name for _, name in lock.acquisitions if name.startswith("T")]
     per_thread_idx = {th: 0 for th in range(nthreads)}
     lock_ops = {th: [op for op in prog[th]] for th in range(nthreads)}
-    if len(order) == sum(len(v) for v in lock_ops.values()):
+    if ticking:
+        ctx.count("lock_order_replay_skipped_ticking_clock")     # (elapsed times depend on how often the clock was read)
+    elif len(order) == sum(len(v) for v in lock_ops.values()):
         ctx.count("mon.lock_order_replay")
         clock2 = Clock()
         q = make_progress(clock2)
